@@ -3915,8 +3915,14 @@ impl Interpreter {
 
         match func {
             JsFunction::Native(native) => {
-                // Call native function - propagate the Guarded to preserve guard
-                (native.func)(self, this_value, args)
+                // Call native function - propagate the Guarded to preserve guard.
+                // Host-registered functions find their callback through current_ffi_id,
+                // exactly as when the VM calls them directly.
+                let prev_ffi_id = self.current_ffi_id;
+                self.current_ffi_id = native.ffi_id;
+                let result = (native.func)(self, this_value, args);
+                self.current_ffi_id = prev_ffi_id;
+                result
             }
 
             JsFunction::Bytecode(bc_func) => {
